@@ -47,6 +47,15 @@ class Family:
 
 def _trim_slice(prog: Program, fn: FuncInfo) -> Tuple[int, int]:
     rets = [n for n in ast.walk(fn.node) if isinstance(n, ast.Return)]
+    param0 = fn.params[-1]
+    conds = [n.test for n in ast.walk(fn.node) if isinstance(n, (ast.If, ast.IfExp)) and any(isinstance(x, ast.Name) and x.id == param0 for x in ast.walk(n.test))]
+    if (len(rets) > 1 or any(isinstance(r.value, ast.IfExp) for r in rets)) and conds:
+        from . import StructuralViolation
+        raise StructuralViolation(
+            ("C02", "C12", "C14"), "trim:%s" % fn.cls.name, fn.loc(rets[0]),
+            "trim_response cuts header and checksum off by constant amounts: the payload handed to the sensors is the register block the validator accepted",
+            "%s.trim_response cuts the payload differently depending on the received bytes (%s), which a conforming answer is free to contain "
+            "(e.g. the transaction id it echoes): such an answer is cut at the wrong place, so the request does not succeed with the payload that was sent" % (fn.cls.name, norm(conds[0])))
     if len(rets) != 1 or not isinstance(rets[0].value, ast.Subscript) or not isinstance(rets[0].value.slice, ast.Slice):
         raise AnalysisError("trim_response of %s is not a single slice (%s)" % (fn.cls.name, fn.loc()))
     sl = rets[0].value.slice
